@@ -23,3 +23,8 @@ open SamVerif.C01
 #print axioms cpe_const_preserves
 #print axioms cpe_prog_unused_preserves
 #print axioms cpe_prog_const_preserves
+#print axioms wf_push
+#print axioms push_contents
+#print axioms get_spec
+#print axioms set_spec
+#print axioms pop_spec
